@@ -301,6 +301,15 @@ def material_array(m, shape, seed, tag, inverse=True):
     for i in range(3):
         D[i, i] = d[i]
     T = np.einsum("ij...,jk...,lk...->il...", R, D, R)
+    if m.get("box") is not None:
+        # full tensors only inside the box; an isotropic background (still stored with 9 components) elsewhere
+        bx = m["box"]
+        inside = np.zeros(shape, dtype=bool)
+        inside[bx[0][0] : bx[0][1], bx[1][0] : bx[1][1], bx[2][0] : bx[2][1]] = True
+        bg = np.zeros((3, 3, *shape))
+        for i in range(3):
+            bg[i, i] = m.get("bg", 2.0)
+        T = np.where(inside[None, None], T, bg)
     if inverse:
         Tm = np.moveaxis(T.reshape(3, 3, -1), -1, 0)
         Ti = np.linalg.inv(Tm)
